@@ -415,7 +415,7 @@ func (c *Ctx) rulesR7misc(only string) {
 					}
 					for _, root := range roots {
 						// on the handler's own goroutine, unconditionally
-						if (f == root || (f.Parent() == nil && c.hostedBy(f, root))) && len(guardsOf(b)) == 0 {
+						if (f == root || (f.Parent() == nil && c.hostedBy(f, root))) && len(c.guardsHosted(ins, root)) == 0 {
 							found = true
 						}
 					}
@@ -571,8 +571,10 @@ func (c *Ctx) rulesR7misc(only string) {
 						c.fail("C13.qrelease", fmt.Sprintf("disposeLocked: CheckDone release#%d walks Machine.queue", n), call.Pos(), "the release of queued checks does not read Machine.queue")
 						continue
 					}
-					// ... and no reset of the queue comes first
+					// ... and no reset of the queue comes first (both sides seen from
+					// disposeLocked: a hosted helper is represented by its call site)
 					bad := false
+					walkAt := c.standIn(f, qload)
 					for _, g := range c.hostedFns(f) {
 						if g.Parent() != nil {
 							continue
@@ -581,16 +583,11 @@ func (c *Ctx) rulesR7misc(only string) {
 							if w.Kind != "assign" {
 								continue
 							}
-							at := w.Instr
-							if g != hf {
-								for _, st := range c.innerSites(hf, funcKey(g)) {
-									if st.Parent() == hf && dominatesInstr(st, qload) {
-										bad = true
-									}
-								}
-								continue
+							if g == hf && dominatesInstr(w.Instr, qload) {
+								bad = true
 							}
-							if dominatesInstr(at, qload) {
+							wAt := c.standIn(f, w.Instr)
+							if walkAt != nil && wAt != nil && wAt != walkAt && dominatesInstr(wAt, walkAt) {
 								bad = true
 							}
 						}
